@@ -124,6 +124,15 @@ void __sanitizer_cov_store4(void *a) { on_access(a, 4, 1); }
 void __sanitizer_cov_store8(void *a) { on_access(a, 8, 1); }
 void __sanitizer_cov_store16(void *a) { on_access(a, 16, 1); }
 
+/* libc block operations are not instrumented by the compiler: the library's calls to them are
+ * routed here (-Wl,--wrap) and reported as one load and/or one store of the whole range */
+void *__real_memcpy(void *, const void *, size_t);
+void *__real_memmove(void *, const void *, size_t);
+void *__real_memset(void *, int, size_t);
+void *__wrap_memcpy(void *d, const void *s, size_t n) { if (in_sched && cur >= 0 && n) { on_access((void *)(uintptr_t)s, n, 0); on_access(d, n, 1); } return __real_memcpy(d, s, n); }
+void *__wrap_memmove(void *d, const void *s, size_t n) { if (in_sched && cur >= 0 && n) { on_access((void *)(uintptr_t)s, n, 0); on_access(d, n, 1); } return __real_memmove(d, s, n); }
+void *__wrap_memset(void *d, int c, size_t n) { if (in_sched && cur >= 0 && n) on_access(d, n, 1); return __real_memset(d, c, n); }
+
 /* allocator seam: ownership of heap blocks */
 void *__real_calloc(size_t, size_t);
 void __real_free(void *);
